@@ -39,6 +39,12 @@ Utf8Law ==
   /\ TextClean(<<34, 195, 169, 92, 110, 34>>) /\ ~TextClean(<<34, 10, 34>>) /\ ~TextClean(<<34, 127, 34>>)
   /\ ~TextClean(<<34, 194, 133, 34>>) /\ ~TextClean(<<34, 226, 128, 168, 34>>) /\ ~TextClean(<<34, 255, 34>>)
 
+Alphabet == {65, 10, 127, 128, 159, 160, 168, 191, 192, 194, 195, 224, 226, 237, 240, 244, 245}
+CleanAgree ==
+  /\ \A n \in 0..3 : \A t \in [1..n -> Alphabet] : TextClean(t) = TextCleanRef(t)
+  /\ \A a \in {226, 240, 244, 237}, b \in {128, 143, 144, 159, 160}, c \in {128, 168, 169}, d \in {65, 128} :
+        TextClean(<<a, b, c, d>>) = TextCleanRef(<<a, b, c, d>>)
+
 StrVectors ==
   /\ StrReprOK(<<34, 97, 92, 110, 92, 34, 34>>, <<97, 10, 34>>, FALSE)                  \* "a\n\""
   /\ StrReprOK(<<98, 34, 92, 120, 102, 102, 34>>, <<255>>, TRUE)                          \* b"\xff"
@@ -75,8 +81,8 @@ GraphVectors ==
   /\ GraphRepr(<<L(<<2, 3, 4>>), Lf([t |-> "none"]), Lf([t |-> "bool", v |-> TRUE]), Lf([t |-> "str", v |-> <<97>>])>>, 1, {})
         = <<91, 78, 111, 110, 101, 44, 32, 84, 114, 117, 101, 44, 32, 34, 97, 34, 93>>
 
-Laws == <<IntLaw, BigIntVectors, Utf8Law, StrVectors, FloatVectors, GraphVectors>>
-NLaws == 6
+Laws == <<IntLaw, BigIntVectors, Utf8Law, CleanAgree, StrVectors, FloatVectors, GraphVectors>>
+NLaws == 7
 Init == step = 0
 Next == step < NLaws /\ step' = step + 1
 LawHolds == step = 0 \/ Laws[step]
